@@ -196,6 +196,44 @@ def run_race(case):
     return Info(in_window, labels)
 
 
+_N0 = {}
+
+
+def _first_request_events():
+    """Router line events executed by a first-ever request that runs undisturbed (measured once per process)."""
+    if 'n' not in _N0:
+        app = build_wsgi()
+        sched = Scheduler([lambda: wsgi_request(app, 0), lambda: wsgi_request(app, 1)], [], trace_prefixes=(COMPILED_PY,),
+                          trace_filenames=('<string>',))
+        _cooperative_locks(app._router, sched)
+        sched.run()
+        _N0['n'] = sched.points[0]
+    return _N0['n']
+
+
+class RacePublication(Suite):
+    """Double pre-emptions aimed at the two narrow windows of the lazy compilation: thread 0 is pre-empted somewhere in
+    the LAST 70 router line events of its first request (compilation finished, result being published, first lookup),
+    thread 1 then runs 1..45 line events (entering the router, re-checking, possibly starting its own compilation) and is
+    pre-empted in turn, thread 0 finishes, thread 1 finishes.  Every (k1, k2) pair of that rectangle is run."""
+
+    name = 'race_publication'
+    exhaustive = True
+    budget = {'quick': 1, 'thorough': 1}
+    case_timeout = 120
+
+    def cases(self, tier):
+        n0 = _first_request_events()
+        tail = 70 if tier == 'quick' else 140
+        head = 45 if tier == 'quick' else 90
+        for k1 in range(max(0, n0 - tail), n0 + 1):
+            for k2 in range(1, head + 1):
+                yield {'reqs': [0, 1], 'plan': [[0, k1], [1, k2], [0, 100000]]}
+
+    def run(self, case):
+        return run_race(case)
+
+
 # ------------------------------------------------------------------ (a') first-request race while the lazy compilation FAILS
 
 
@@ -898,5 +936,5 @@ class AsgiRandom(Suite):
         return run_asgi_tasks(case)
 
 
-SUITES = [RaceSinglePreemption(), RaceDoublePreemption(), RaceCompileError(), FreshProcess(), RaceRandom(), SteadyEnum(), AppLines(), AsgiEnum(), AsgiRandom()]
+SUITES = [RaceSinglePreemption(), RaceDoublePreemption(), RacePublication(), RaceCompileError(), FreshProcess(), RaceRandom(), SteadyEnum(), AppLines(), AsgiEnum(), AsgiRandom()]
 KNOWN = {}
